@@ -13,7 +13,7 @@ RULE = ('random trees over keys {a,b,c} (depth <=3, thorough <=4) and paths over
         '(length <=4, thorough <=6) incl. empty paths and paths into missing keys; the same shapes '
         'built as Store trees; non-trivial = tree with >=3 nodes and a dictionary path of length >=2 '
         'or a relative Store path containing ".."; distinct = distinct case spec')
-PLAN = {'quick': {'n': 24000, 'min_cases': 2000}, 'thorough': {'n': 400000, 'min_cases': 20000}}
+PLAN = {'quick': {'n': 60000, 'min_cases': 2000}, 'thorough': {'n': 400000, 'min_cases': 20000}}
 REQUIRED_ORACLES = ['assoc_get', 'delete_in', 'update_in', 'enumerations', 'walk_vs_lexical',
                     'path_to', 'path_for']
 ANCHORS = ['vivarium.library.topology:normalize_path', 'vivarium.library.topology:get_in',
